@@ -52,7 +52,7 @@ theorem reverseByte_lt : ∀ x, x < 256 → Bits.reverseByte x < 256 := by decid
 /-- regrouping: the byte whose bits (msb first) are the low 8 bits of v (lsb first) -/
 theorem bitsVal_bitsLE : ∀ x, x < 256 → Spec.bitsVal (bitsLE x 8) = Bits.reverseByte x := by decide +kernel
 
-theorem bitsLE_byte (x y : Nat) (hx : x < 256) : bitsLE (x + 256 * y) 8 = bitsLE x 8 := by
+theorem bitsLE_byte (x y : Nat) (_hx : x < 256) : bitsLE (x + 256 * y) 8 = bitsLE x 8 := by
   rw [← bitsLE_mod (x + 256 * y) 8, ← bitsLE_mod x 8]
   have : (x + 256 * y) % 256 = x % 256 := by omega
   exact congrArg (fun t => bitsLE t 8) this
